@@ -80,6 +80,7 @@ type Node struct {
 	Height  int64     // last committed height
 	Time    time.Time // block time of last committed block
 	Builds  int       // number of times the app object was constructed
+	Primary bool      // the run's primary node (not a replica, clone or import target)
 	lastReq *abci.RequestFinalizeBlock
 }
 
